@@ -192,6 +192,13 @@ fn gen_entry_scen(rng: &mut Rng) -> (Scen1, Vec<usize>) {
     let hi = ax[n - 1];
     let mut queries: Vec<f64> = (0..qn).map(|_| lo + (hi - lo) * (rng.range(0, 16) as f64 / 16.0)).collect();
     let ext = rng.chance(1, 4);
+    if ext && qn > 0 {
+        // with extrapolation, elements outside the range (both sides) are ordinary queries
+        for _ in 0..2 {
+            let p = rng.below(qn as u64) as usize;
+            queries[p] = if rng.coin() { hi + (hi - lo) * 0.5 } else { lo - (hi - lo) * 0.25 };
+        }
+    }
     if !ext && qn > 0 && rng.chance(1, 6) {
         let p = rng.below(qn as u64) as usize;
         queries[p] = hi + 1.0; // one out-of-range element somewhere in the batch
@@ -409,6 +416,30 @@ pub fn run(cfg: &Cfg, prop: &str) {
         }
         if ci == 0 {
             rep.sample(obj(vec![("scenario", sc.to_json()), ("query_shape", s(format!("{:?}", qshape))), ("required_buffer_shape", s(format!("{:?}", good)))]));
+        }
+    }
+    // rank-1 batches (static: the fast path; dynamic: the general path) with ONE out-of-range element at every
+    // position: the call must return OutOfBounds, never Ok
+    for _ in 0..(if thorough { 60 } else { 12 }) {
+        let (mut sc, _) = gen_entry_scen(&mut rng);
+        sc.ext = false;
+        let (lo, hi) = (sc.axis_vals()[0], sc.axis_vals()[sc.n() - 1]);
+        let k = 4usize;
+        let mut good: Vec<usize> = vec![k];
+        good.extend_from_slice(&sc.trail);
+        for pos in 0..k {
+            for dyn_query in [false, true] {
+                sc.queries = (0..k).map(|i| (lo + (hi - lo) * (i as f64) / 4.0).min(hi)).collect();
+                sc.queries[pos] = hi + 1.0;
+                let spec = gen_layout(&mut rng, &good, 0);
+                let (r, _d, _o, _s) = call_into::<f64>(&sc, &[k], dyn_query, &spec);
+                rep.evaluations += 1;
+                rep.count("rank1-batch-one-oob");
+                if r != CallOut::Oob {
+                    rep.fail(&format!("interp_array_into with a rank-1 query ({}) whose element {} of {} is out of range returned {:?} instead of OutOfBounds",
+                                      if dyn_query { "dynamic" } else { "static" }, pos, k, r), sc.to_json());
+                }
+            }
         }
     }
     static_dim_matrix(&mut rep, &mut rng);
@@ -634,7 +665,7 @@ fn input_layouts(rep: &mut Report, rng: &mut Rng, ncases: usize) {
 /// interp(q[i..]) whatever the strides of the query arrays
 fn query_layouts(rep: &mut Report, rng: &mut Rng, ncases: usize) {
     for _ in 0..ncases {
-        let qrank = rng.range(2, 4) as usize;
+        let qrank = rng.range(1, 3) as usize;
         let qshape: Vec<usize> = (0..qrank).map(|_| rng.range(2, 4) as usize).collect();
         let qn: usize = qshape.iter().product();
         // ---- 2-D ----
@@ -667,6 +698,34 @@ fn query_layouts(rep: &mut Report, rng: &mut Rng, ncases: usize) {
                 other => rep.fail(&format!("2-D: interp_array with query layouts x={} y={} failed: {:?}", sx.label, sy.label, other.map(|x| x.is_ok())), sc.to_json()),
             }
         }
+        // static rank-1 queries (the Ix1 fast path) as reversed and strided views
+        {
+            let k = rng.range(2, 5) as usize;
+            let qx1: Vec<f64> = (0..k).map(|_| (xv[0] + (xv[xv.len() - 1] - xv[0]) * rng.range(0, 16) as f64 / 16.0).min(xv[xv.len() - 1])).collect();
+            let qy1: Vec<f64> = (0..k).map(|_| (yv[0] + (yv[yv.len() - 1] - yv[0]) * rng.range(0, 16) as f64 / 16.0).min(yv[yv.len() - 1])).collect();
+            let mut ref1: Vec<u64> = Vec::new();
+            for i in 0..k { ref1.extend(interp.interp(qx1[i], qy1[i]).unwrap().iter().map(|v| v.to_bits())); }
+            let rev = |v: &Vec<f64>| Array1::from(v.iter().rev().cloned().collect::<Vec<f64>>());
+            let strided = |v: &Vec<f64>| Array1::from(v.iter().flat_map(|&x| [x, -777.0]).collect::<Vec<f64>>());
+            let (xr, yr, xst, yst) = (rev(&qx1), rev(&qy1), strided(&qx1), strided(&qy1));
+            let xc = Array1::from(qx1.clone());
+            let yc = Array1::from(qy1.clone());
+            let variants: Vec<(&str, ndarray::ArrayView1<f64>, ndarray::ArrayView1<f64>)> = vec![
+                ("x reversed view, y owned", xr.slice(ndarray::s![..;-1]), yc.view()),
+                ("x owned, y reversed view", xc.view(), yr.slice(ndarray::s![..;-1])),
+                ("both reversed views", xr.slice(ndarray::s![..;-1]), yr.slice(ndarray::s![..;-1])),
+                ("both every-2nd-element views", xst.slice(ndarray::s![..;2]), yst.slice(ndarray::s![..;2])),
+            ];
+            for (label, vx, vy) in variants {
+                let r = catch_unwind(AssertUnwindSafe(|| interp.interp_array(&vx, &vy).map(|a| a.iter().map(|v| v.to_bits()).collect::<Vec<u64>>())));
+                rep.evaluations += 1;
+                rep.count("2d-static-rank1-query-layout");
+                match r {
+                    Ok(Ok(bits)) => if bits != ref1 { rep.fail(&format!("2-D: interp_array with static rank-1 queries ({}) differs from interp element by element", label), sc.to_json()); },
+                    other => rep.fail(&format!("2-D: interp_array with static rank-1 queries ({}) failed: {:?}", label, other.map(|x| x.is_ok())), sc.to_json()),
+                }
+            }
+        }
         // ---- 1-D ----
         let n = rng.range(2, 6) as usize;
         let trail: Vec<usize> = match rng.below(3) { 0 => vec![], 1 => vec![2], _ => vec![2, 2] };
@@ -691,6 +750,30 @@ fn query_layouts(rep: &mut Report, rng: &mut Rng, ncases: usize) {
             match r {
                 Ok(Ok(bits)) => if bits != ref1 { rep.fail(&format!("1-D: interp_array(q)[i..] differs from interp(q[i..]) for query layout {} (query shape {:?})", sq.label, qshape), J::Null); },
                 other => rep.fail(&format!("1-D: interp_array with query layout {} failed: {:?}", sq.label, other.map(|x| x.is_ok())), J::Null),
+            }
+        }
+        // static rank-1 queries (Ix1 fast path) as reversed / strided views, also into a caller buffer
+        {
+            let flatq: Vec<f64> = qv.clone();
+            let k = flatq.len();
+            let qrev = Array1::from(flatq.iter().rev().cloned().collect::<Vec<f64>>());
+            let qst = Array1::from(flatq.iter().flat_map(|&x| [x, -777.0, 555.0]).collect::<Vec<f64>>());
+            for (label, vq) in [("reversed view", qrev.slice(ndarray::s![..;-1])), ("every-3rd-element view", qst.slice(ndarray::s![..;3]))] {
+                let r = catch_unwind(AssertUnwindSafe(|| i1.interp_array(&vq).map(|a| a.iter().map(|v| v.to_bits()).collect::<Vec<u64>>())));
+                rep.evaluations += 1;
+                rep.count("1d-static-rank1-query-layout");
+                match r {
+                    Ok(Ok(bits)) => if bits != ref1 { rep.fail(&format!("1-D: interp_array with a static rank-1 query given as a {} differs from interp element by element", label), J::Null); },
+                    other => rep.fail(&format!("1-D: interp_array with a static rank-1 query ({}) failed: {:?}", label, other.map(|x| x.is_ok())), J::Null),
+                }
+                let mut bshape = vec![k];
+                bshape.extend_from_slice(&trail);
+                let mut buf = ArrayD::from_elem(IxDyn(&bshape), -1.0f64);
+                let ok = catch_unwind(AssertUnwindSafe(|| i1.interp_array_into(&vq, buf.view_mut()).is_ok())).unwrap_or(false);
+                rep.evaluations += 1;
+                if !ok || buf.iter().map(|v| v.to_bits()).collect::<Vec<u64>>() != ref1 {
+                    rep.fail(&format!("1-D: interp_array_into with a static rank-1 query given as a {} differs from interp element by element", label), J::Null);
+                }
             }
         }
     }
